@@ -422,6 +422,13 @@ class Exec:
             fi = Frame(self.funcs[initname])
             fi.ret_to = ('defer', None)
             st.frames.append(fi)
+            # ... and before it the initialisers of the module's own library packages it depends on (package-level state such as
+            # semaphores or caches lives there); third-party packages' initialisers stay no-ops
+            for other in [self.follow_prefix + '/prover.init', self.follow_prefix + '/server.init']:
+                if other in self.funcs and other != initname:
+                    fo = Frame(self.funcs[other])
+                    fo.ret_to = ('defer', None)
+                    st.frames.append(fo)
         work = [st]
         self.results = []
         t_start = time.time()
@@ -815,7 +822,14 @@ class Exec:
         h = self.stubs.get('chan:make')
         if h is None:
             raise Unsupported('make(chan) at %s' % ins.get('pos'))
-        self.setreg(fr, ins, h(self, st, ins))
+        self.setreg(fr, ins, h(self, st, ins, self.ev(st, fr, ins['size']) if ins.get('size') else None))
+
+    def op_Send(self, st, fr, ins):
+        h = self.stubs.get('chan:send')
+        if h is None:
+            raise Unsupported('instruction Send at %s' % ins.get('pos'))
+        h(self, st, self.ev(st, fr, ins['chan']), self.ev(st, fr, ins['x']), ins)
+        fr.idx += 1
 
     def op_Go(self, st, fr, ins):
         h = self.stubs.get('go')
